@@ -160,16 +160,24 @@ impl<K: AnimationKey> AnimationChainBuilder<K> {
 
 pub(super) fn chain_animations<K: AnimationKey, T: Component>(
     mut events: EventReader<AnimationStateChanged>,
-    mut selector_query: Query<(&mut AnimationSelector<K, T>, &AnimationChain<K>)>,
+    mut selector_query: Query<(&mut AnimationSelector<K, T>, &AnimationChain<K>, &Animator<T>)>,
 ) {
     for ev in events.iter() {
         let AnimationStateChanged { entity, state } = ev;
         if state != &AnimationState::Ended {
             continue;
         }
-        let Ok((mut selector, chain)) = selector_query.get_mut(*entity) else {
+        let Ok((mut selector, chain, animator)) = selector_query.get_mut(*entity) else {
             continue;
         };
+        // The event does not say which animator on the entity ended. Only advance the chain when
+        // the animator governed by this selector is the one that has ended, and it ended while
+        // playing the current key (not a key that was assigned since and has not played yet).
+        if animator.state() != AnimationState::Ended
+            || selector.previous_key.as_ref() != Some(&selector.timeline_key)
+        {
+            continue;
+        }
         if let Some(next_key) = chain.next_keys.get(&selector.timeline_key) {
             selector.timeline_key = next_key.clone();
         }
